@@ -2,12 +2,19 @@
 
 package dhcpd
 
-// C10 harness: runs operation histories against the real DHCPv4 server
+// C10 harness: runs operation histories against the real DHCP service object
 // (created through Create, so that the lease database is written by the
-// code's own notifications), observes replies, the lease table, the DNS-facing
-// probes and the database file after every step, evaluates the property
+// code's own notifications; the admin operations set_config, reset,
+// reset_leases, status and the static-lease requests go through the real HTTP
+// handlers), observes replies, the lease table, the DNS-facing probes, the
+// status report and the database file OF THE DATA DIRECTORY THE SERVICE WAS
+// CREATED WITH after every step, starts a second service from the same data
+// directory and the configuration the service last wrote after every step
+// (a restart must give the same table and answers), evaluates the property
 // directly on the real tables (monitor) and prints every history as one
-// Gallina term for the model replay.
+// Gallina term for the model replay.  The process runs in a scratch working
+// directory: a lease file written to a relative path lands there and is
+// reported.
 
 import (
 	"encoding/binary"
@@ -27,6 +34,7 @@ import (
 	"strings"
 	"testing"
 	"time"
+	"unicode/utf8"
 
 	"github.com/AdguardTeam/AdGuardHome/internal/dhcpsvc"
 	"github.com/AdguardTeam/golibs/log"
@@ -46,10 +54,14 @@ const (
 	c10Restart
 	c10Busy
 	c10SetConfig
+	c10Reset
+	c10ResetLeases
+	c10Status
 )
 
 var c10KindNames = []string{"discover", "request", "decline", "release", "static-add",
-	"static-update", "static-remove", "tick", "restart", "probe-set", "set-config"}
+	"static-update", "static-remove", "tick", "restart", "probe-set", "set-config",
+	"reset", "reset-leases", "status"}
 
 // c10Op is one step of a history.  Addresses are host-order uint32, 0 = the
 // option / field is absent (sid, reqip) or unspecified (ciaddr).
@@ -223,7 +235,20 @@ type c10World struct {
 	// icmp: the running server probes addresses (ICMPTimeout > 0).  Only ever
 	// true when c10Probe is.  busyList() says which addresses answer.
 	icmp bool
+	// yaml is the DHCP section of the configuration file: what the service
+	// last wrote through WriteDiskConfig (the owner of the file, package home,
+	// calls it on ConfigModified) and what the next process start reads.
+	yaml *ServerConfig
+	// fresh: the first start finds no DHCPv4 settings (DHCP disabled).
+	fresh bool
+	// byMethod counts static-lease operations made by method call (the
+	// hostname is not valid UTF-8 and cannot travel in JSON).
+	byMethod int
+	byHTTP   int
 }
+
+// c10Scratch is the working directory of the process while histories run.
+var c10Scratch string
 
 // c10Probe: the test runs in a private network namespace in which raw ICMP
 // works: the loopback interface is up, so every address of 127.0.0.0/8
@@ -347,14 +372,16 @@ func (w *c10World) busyList() (ips []uint32) {
 	return ips
 }
 
-func (w *c10World) create() {
+// firstYaml is the DHCP section of the configuration file before the first
+// start.
+func (w *c10World) firstYaml() *ServerConfig {
+	if w.fresh {
+		return &ServerConfig{}
+	}
 	cf := w.conf
 	mask := ^(cf.SubHi - cf.SubLo)
-	srv, err := Create(&ServerConfig{
-		Enabled:        true,
-		ConfigModified: func() {},
-		DataDir:        w.dir,
-		WorkDir:        w.dir,
+	return &ServerConfig{
+		Enabled: true,
 		Conf4: V4ServerConf{
 			Enabled:       true,
 			RangeStart:    c10Addr(cf.Start),
@@ -363,14 +390,115 @@ func (w *c10World) create() {
 			SubnetMask:    c10Addr(mask),
 			LeaseDuration: cf.LeaseSec,
 			ICMPTimeout:   map[bool]uint32{false: 0, true: c10ICMPTimeout}[w.icmp],
-			dnsIPAddrs:    []netip.Addr{c10Addr(cf.Self)},
 		},
-	})
+	}
+}
+
+// start is a process start: Create with the DHCP section of the configuration
+// file as it is now and the data directory of the history.  Nothing of it
+// writes to the disk.
+func (w *c10World) start(live bool) (srv *server, err error) {
+	y := *w.yaml
+	y.DataDir, y.WorkDir = w.dir, w.dir
+	y.Conf4.dnsIPAddrs = []netip.Addr{c10Addr(w.conf.Self)}
+	y.ConfigModified = func() {}
+	if live {
+		// Package home: onConfigModified -> config.write ->
+		// dhcpServer.WriteDiskConfig(config.DHCP).
+		y.ConfigModified = func() { w.srv.WriteDiskConfig(w.yaml) }
+	}
+	return Create(&y)
+}
+
+func (w *c10World) create() {
+	if w.yaml == nil {
+		w.yaml = w.firstYaml()
+	}
+	srv, err := w.start(true)
 	if err != nil {
 		w.t.Fatalf("C10: Create: %v", err)
 	}
 	w.srv = srv
-	w.s4 = srv.srv4.(*v4Server)
+	w.refresh()
+}
+
+// refresh follows the handlers that replace the DHCPv4 server.
+func (w *c10World) refresh() {
+	w.s4 = w.srv.srv4.(*v4Server)
+	w.icmp = false
+	if w.s4.conf != nil {
+		w.s4.conf.dnsIPAddrs = []netip.Addr{c10Addr(w.conf.Self)}
+		w.icmp = w.s4.conf.ICMPTimeout > 0
+	}
+}
+
+func (w *c10World) configured() bool { return w.s4.conf != nil }
+
+// post sends a request to one of the service's HTTP handlers.
+func c10Post(h http.HandlerFunc, method, path, body string) (code int, resp []byte) {
+	rec := httptest.NewRecorder()
+	h(rec, httptest.NewRequest(method, path, strings.NewReader(body)))
+	return rec.Code, rec.Body.Bytes()
+}
+
+// c10StatusView is what GET /control/dhcp/status reports.
+type c10StatusView struct {
+	Enabled    bool
+	Start, End uint32
+	Leases     []c10Lease
+}
+
+func (w *c10World) status() (v c10StatusView, err error) {
+	code, body := c10Post(w.srv.handleDHCPStatus, http.MethodGet, "/control/dhcp/status", "")
+	if code != http.StatusOK {
+		return v, fmt.Errorf("status: code %d", code)
+	}
+	var st struct {
+		V4 struct {
+			RangeStart netip.Addr `json:"range_start"`
+			RangeEnd   netip.Addr `json:"range_end"`
+		} `json:"v4"`
+		Leases       []leaseDynamic `json:"leases"`
+		StaticLeases []leaseStatic  `json:"static_leases"`
+		Enabled      bool           `json:"enabled"`
+	}
+	if err = json.Unmarshal(body, &st); err != nil {
+		return v, err
+	}
+	v.Enabled = st.Enabled
+	if st.V4.RangeStart.IsValid() {
+		v.Start, v.End = c10FromAddr(st.V4.RangeStart), c10FromAddr(st.V4.RangeEnd)
+	}
+	for _, l := range st.Leases {
+		mac, perr := net.ParseMAC(l.HWAddr)
+		if perr != nil {
+			return v, perr
+		}
+		v.Leases = append(v.Leases, c10Lease{IP: c10FromAddr(l.IP), Mac: c10FromMAC(mac), Host: l.Hostname, Kind: 1})
+	}
+	for _, l := range st.StaticLeases {
+		mac, perr := net.ParseMAC(l.HWAddr)
+		if perr != nil {
+			return v, perr
+		}
+		v.Leases = append(v.Leases, c10Lease{IP: c10FromAddr(l.IP), Mac: c10FromMAC(mac), Host: l.Hostname, Kind: 0})
+	}
+	return v, nil
+}
+
+// strays lists the lease files outside the data directory: anything the
+// process wrote into its (scratch, otherwise empty) working directory.
+func c10Strays() (found []string) {
+	if c10Scratch == "" {
+		return nil
+	}
+	filepath.WalkDir(c10Scratch, func(p string, d os.DirEntry, err error) error {
+		if err == nil && p != c10Scratch {
+			found = append(found, p)
+		}
+		return nil
+	})
+	return found
 }
 
 // now is the logical clock: the wall clock plus everything the deadlines were
@@ -555,6 +683,11 @@ func (w *c10World) apply(o c10Op) (r c10Reply, panicked string) {
 	}()
 	switch o.Kind {
 	case c10Discover, c10Request, c10Decline, c10Release:
+		if !w.configured() {
+			// An unconfigured server has no socket (Start returns at once): no
+			// message reaches it.  The generators do not produce this.
+			w.t.Fatalf("C10: harness: a message for an unconfigured server")
+		}
 		req, resp := w.message(o)
 		code := w.s4.handle(req, resp)
 		r = c10Reply{Code: code}
@@ -563,18 +696,40 @@ func (w *c10World) apply(o c10Op) (r c10Reply, panicked string) {
 			r.YI = c10FromIP(resp.YourIPAddr)
 		}
 	case c10StaticAdd, c10StaticUpdate, c10StaticRemove:
-		l := &dhcpsvc.Lease{HWAddr: o.hw(), IP: c10Addr(o.IP), Hostname: o.Host, IsStatic: true}
-		var err error
+		r = c10Reply{Code: 2}
+		if !utf8.ValidString(o.Host) {
+			// JSON cannot carry the name: the method the handler ends in.
+			w.byMethod++
+			l := &dhcpsvc.Lease{HWAddr: o.hw(), IP: c10Addr(o.IP), Hostname: o.Host, IsStatic: true}
+			var err error
+			switch o.Kind {
+			case c10StaticAdd:
+				err = w.srv.srv4.AddStaticLease(l)
+			case c10StaticUpdate:
+				err = w.srv.srv4.UpdateStaticLease(l)
+			default:
+				err = w.srv.srv4.RemoveStaticLease(l)
+			}
+			if err != nil {
+				r.Code = 3
+			}
+			break
+		}
+		w.byHTTP++
+		body, err := json.Marshal(&leaseStatic{HWAddr: o.hw().String(), IP: c10Addr(o.IP), Hostname: o.Host})
+		if err != nil {
+			w.t.Fatalf("C10: %v", err)
+		}
+		var code int
 		switch o.Kind {
 		case c10StaticAdd:
-			err = w.s4.AddStaticLease(l)
+			code, _ = c10Post(w.srv.handleDHCPAddStaticLease, http.MethodPost, "/control/dhcp/add_static_lease", string(body))
 		case c10StaticUpdate:
-			err = w.s4.UpdateStaticLease(l)
+			code, _ = c10Post(w.srv.handleDHCPUpdateStaticLease, http.MethodPost, "/control/dhcp/update_static_lease", string(body))
 		default:
-			err = w.s4.RemoveStaticLease(l)
+			code, _ = c10Post(w.srv.handleDHCPRemoveStaticLease, http.MethodPost, "/control/dhcp/remove_static_lease", string(body))
 		}
-		r = c10Reply{Code: 2}
-		if err != nil {
+		if code != http.StatusOK {
 			r.Code = 3
 		}
 	case c10Tick:
@@ -582,7 +737,8 @@ func (w *c10World) apply(o c10Op) (r c10Reply, panicked string) {
 		r = c10Reply{Code: 4}
 	case c10Restart:
 		if o.ICMP != 0 && c10Probe {
-			w.icmp = o.ICMP == 1
+			// The administrator edits icmp_timeout_msec in the configuration file.
+			w.yaml.Conf4.ICMPTimeout = map[bool]uint32{false: 0, true: c10ICMPTimeout}[o.ICMP == 1]
 		}
 		w.create()
 		r = c10Reply{Code: 4}
@@ -591,18 +747,33 @@ func (w *c10World) apply(o c10Op) (r c10Reply, panicked string) {
 		mask := ^(cf.SubHi - cf.SubLo)
 		body := fmt.Sprintf(`{"enabled":false,"v4":{"gateway_ip":%q,"subnet_mask":%q,"range_start":%q,"range_end":%q,"lease_duration":%d}}`,
 			c10Addr(cf.GW), c10Addr(mask), c10Addr(o.PoolStart), c10Addr(o.PoolEnd), cf.LeaseSec)
-		rec := httptest.NewRecorder()
-		w.srv.handleDHCPSetConfig(rec, httptest.NewRequest(http.MethodPost, "/control/dhcp/set_config", strings.NewReader(body)))
+		code, _ := c10Post(w.srv.handleDHCPSetConfig, http.MethodPost, "/control/dhcp/set_config", body)
 		r = c10Reply{Code: 3}
-		if rec.Code == http.StatusOK {
+		if code == http.StatusOK {
 			r.Code = 2
 			w.conf.Start, w.conf.End = o.PoolStart, o.PoolEnd
 		}
 		// The handler replaced the server (also when it failed late).
-		w.s4 = w.srv.srv4.(*v4Server)
-		if w.s4.conf != nil {
-			w.s4.conf.dnsIPAddrs = []netip.Addr{c10Addr(cf.Self)}
+		w.refresh()
+	case c10Reset:
+		code, _ := c10Post(w.srv.handleReset, http.MethodPost, "/control/dhcp/reset", "")
+		r = c10Reply{Code: 3}
+		if code == http.StatusOK {
+			r.Code = 2
 		}
+		w.refresh()
+	case c10ResetLeases:
+		code, _ := c10Post(w.srv.handleResetLeases, http.MethodPost, "/control/dhcp/reset_leases", "")
+		r = c10Reply{Code: 3}
+		if code == http.StatusOK {
+			r.Code = 2
+		}
+		w.refresh()
+	case c10Status:
+		if _, err := w.status(); err != nil {
+			w.t.Fatalf("C10: %v", err)
+		}
+		r = c10Reply{Code: 4}
 	case c10Busy:
 		if c10Probe {
 			if err := c10SetLo(o.IP, o.On); err != nil {
@@ -638,6 +809,9 @@ func (w *c10World) inv() (fs []c10Fail) {
 			byMAC[mac] = l
 		}
 		inList[l] = true
+		if s.conf == nil {
+			add("inv-unconfigured-lease", "an unconfigured server holds a lease for %s", l.IP)
+		}
 		if !l.IsStatic && (ip < cf.Start || ip > cf.End) {
 			add("inv-dyn-outside-pool", "dynamic lease %s outside the pool", l.IP)
 		}
@@ -707,7 +881,10 @@ type c10History struct {
 	ops  []c10Op
 	tag  string
 	next func(i int) (o c10Op, ok bool)
-	seen func(o c10Op, r c10Reply)
+	// seen: the reply, and whether the DHCPv4 server is configured afterwards.
+	seen func(o c10Op, r c10Reply, configured bool)
+	// fresh: the first start finds no DHCPv4 settings.
+	fresh bool
 	// icmp: the first server probes addresses; busy0: the addresses that
 	// answer from the start (both only with c10Probe).
 	icmp  bool
@@ -727,6 +904,64 @@ type c10Gen struct {
 	probe bool
 	// odd: the few odd hostnames (c10OddHosts) this history uses.
 	odd []string
+	// unconfigured: the DHCPv4 server has no settings (after a reset, or from
+	// the start of a fresh installation): no message reaches it.
+	unconfigured bool
+}
+
+// setConfigOp: a set_config request for the same pool, another pool of the
+// same network, or one Validate rejects.
+func (g *c10Gen) setConfigOp() (o c10Op) {
+	o.Kind = c10SetConfig
+	cf := g.conf
+	o.PoolStart, o.PoolEnd = cf.Start, cf.End
+	switch g.r.Intn(8) {
+	case 0, 1, 2: // the same pool
+	case 3: // the gateway inside / on the edge of the pool
+		o.PoolStart = cf.GW - uint32(g.r.Intn(2))
+		o.PoolEnd = o.PoolStart + 1 + uint32(g.r.Intn(3))
+	case 4: // not a range, or beyond the subnet
+		if g.r.Bool() {
+			o.PoolStart, o.PoolEnd = cf.End, cf.Start+uint32(g.r.Intn(2))
+		} else {
+			o.PoolEnd = cf.SubHi + 1 + uint32(g.r.Intn(3))
+		}
+	default: // another pool in the same network
+		o.PoolStart = cf.SubLo + 3 + uint32(g.r.Intn(5))
+		o.PoolEnd = o.PoolStart + 1 + uint32(g.r.Intn(5))
+	}
+	return o
+}
+
+// opUnconfigured: what can be asked of a service whose DHCPv4 server has no
+// settings: mostly a set_config, else the admin requests and restarts.
+func (g *c10Gen) opUnconfigured() (o c10Op) {
+	switch x := g.r.Intn(100); {
+	case x < 50:
+		return g.setConfigOp()
+	case x < 62:
+		o.Kind = c10StaticAdd
+		o.Mac = vfPick(g.r, g.macs)
+		g.longMAC(&o)
+		o.IP, o.Host = g.anyIP(), g.host()
+	case x < 68:
+		o.Kind = c10StaticUpdate + g.r.Intn(2)
+		o.Mac = vfPick(g.r, g.macs)
+		g.longMAC(&o)
+		o.IP, o.Host = g.anyIP(), g.host()
+	case x < 76:
+		o.Kind = c10Status
+	case x < 86:
+		o.Kind = c10Restart
+	case x < 91:
+		o.Kind = c10Reset
+	case x < 96:
+		o.Kind = c10ResetLeases
+	default:
+		o.Kind = c10Tick
+		o.Delta = int64(g.conf.LeaseSec/4) * int64(1+g.r.Intn(5))
+	}
+	return o
 }
 
 func (g *c10Gen) anyIP() uint32 {
@@ -778,6 +1013,9 @@ func (g *c10Gen) ipFor(mac uint64) uint32 {
 }
 
 func (g *c10Gen) op() (o c10Op) {
+	if g.unconfigured {
+		return g.opUnconfigured()
+	}
 	mac := vfPick(g.r, g.macs)
 	o.Mac = mac
 	if mac == 5 {
@@ -846,35 +1084,24 @@ func (g *c10Gen) op() (o c10Op) {
 		o.Kind = c10StaticRemove
 		g.longMAC(&o)
 		o.IP, o.Host = g.ipFor(o.Mac), g.host()
-	case x < 92 || (x < 95 && !g.probe):
+	case x < 90 || (x < 93 && !g.probe):
 		o.Kind = c10Tick
 		o.Mac, o.MacLen = 0, 0
 		o.Delta = int64(g.conf.LeaseSec/4) * int64(1+g.r.Intn(5))
-	case x < 95:
+	case x < 93:
 		o.Kind = c10Busy
 		o.Mac, o.MacLen = 0, 0
 		o.IP = g.conf.Start + uint32(g.r.Intn(int(g.conf.End-g.conf.Start+1)))
 		o.On = g.r.Chance(2, 3)
+	case x < 95:
+		o = g.setConfigOp()
 	case x < 97:
-		o.Kind = c10SetConfig
-		o.Mac, o.MacLen = 0, 0
-		cf := g.conf
-		o.PoolStart, o.PoolEnd = cf.Start, cf.End
-		switch g.r.Intn(8) {
-		case 0, 1, 2: // the same pool
-		case 3: // the gateway inside / on the edge of the pool
-			o.PoolStart = cf.GW - uint32(g.r.Intn(2))
-			o.PoolEnd = o.PoolStart + 1 + uint32(g.r.Intn(3))
-		case 4: // not a range, or beyond the subnet
-			if g.r.Bool() {
-				o.PoolStart, o.PoolEnd = cf.End, cf.Start+uint32(g.r.Intn(2))
-			} else {
-				o.PoolEnd = cf.SubHi + 1 + uint32(g.r.Intn(3))
-			}
-		default: // another pool in the same network
-			o.PoolStart = cf.SubLo + 3 + uint32(g.r.Intn(5))
-			o.PoolEnd = o.PoolStart + 1 + uint32(g.r.Intn(5))
+		o = c10Op{Kind: c10Reset}
+		if g.r.Chance(1, 4) {
+			o.Kind = c10ResetLeases
 		}
+	case x < 98:
+		o = c10Op{Kind: c10Status}
 	default:
 		o.Kind = c10Restart
 		o.Mac, o.MacLen = 0, 0
@@ -930,6 +1157,12 @@ func (e *c10Enc) op(o c10Op) string {
 		return "ETick"
 	case c10SetConfig:
 		return vfApp("ESetConfig", vfN(uint64(o.PoolStart)), vfN(uint64(o.PoolEnd)))
+	case c10Reset:
+		return "EReset"
+	case c10ResetLeases:
+		return "EResetLeases"
+	case c10Status:
+		return "EStatus"
 	}
 	return "ERestart"
 }
@@ -941,7 +1174,8 @@ func c10Run(t *testing.T, out *vfOut, h c10History) {
 		t.Fatal(err)
 	}
 	defer os.RemoveAll(dir)
-	w := &c10World{t: t, conf: h.conf, dir: dir, icmp: h.icmp && c10Probe}
+	w := &c10World{t: t, conf: h.conf, dir: dir, icmp: h.icmp && c10Probe, fresh: h.fresh}
+	origPath := filepath.Join(dir, dataFilename)
 	defer func() {
 		for ip := range c10Lo {
 			c10SetLo(ip, false)
@@ -1021,6 +1255,7 @@ func c10Run(t *testing.T, out *vfOut, h c10History) {
 	// cannot hold; the file keeps listing them until the next store, so until
 	// then an operation that changes nothing need not make the file current.
 	diskExcused := false
+	pathReported := false
 
 	for i := 0; ; i++ {
 		var o c10Op
@@ -1037,6 +1272,7 @@ func c10Run(t *testing.T, out *vfOut, h c10History) {
 		}
 		omac := c10FromMAC(o.hw())
 		cf = w.conf
+		wasConfigured := w.configured()
 		before := w.table()
 		probesBefore := w.probes(probeIPs, probeHosts)
 		hadLease := false
@@ -1087,7 +1323,7 @@ func c10Run(t *testing.T, out *vfOut, h c10History) {
 			fail(i, "panic", "panic: %s", pan)
 		}
 		if h.seen != nil {
-			h.seen(o, r)
+			h.seen(o, r, w.configured())
 		}
 		cfBefore := cf
 		cf = w.conf
@@ -1140,7 +1376,8 @@ func c10Run(t *testing.T, out *vfOut, h c10History) {
 					sa = append(sa, l)
 				}
 			}
-			if !c10SameLeases(sb, sa) && !((o.Kind == c10Restart || o.Kind == c10SetConfig) && !diskCurrent) {
+			if !c10SameLeases(sb, sa) && !((o.Kind == c10Restart || o.Kind == c10SetConfig) && !diskCurrent) &&
+				o.Kind != c10Reset && o.Kind != c10ResetLeases {
 				fail(i, "reservation-changed", "static leases changed from %v to %v without the static-lease API", sb, sa)
 			}
 		}
@@ -1243,6 +1480,52 @@ func c10Run(t *testing.T, out *vfOut, h c10History) {
 		} else if diskCurrent {
 			diskExcused = false
 		}
+		// A process started now, from the data directory and the configuration
+		// the service last wrote, has the same table and gives the same answers.
+		if shadow, serr := w.start(false); serr != nil {
+			fail(i, "restart-fails", "a process start after the step fails: %v", serr)
+		} else {
+			sw := &c10World{t: t, conf: w.conf, dir: dir, srv: shadow, s4: shadow.srv4.(*v4Server)}
+			if st := sw.table(); !c10SameLeases(st, after) {
+				c10SortLeases(st)
+				fail(i, "restart-differs", "a process started after the step has the table %v, memory holds %v (leases.json: %v)", st, sorted, disk)
+			} else if pa, pb := sw.probes(probeIPs, probeHosts), w.probes(probeIPs, probeHosts); pa != pb {
+				fail(i, "restart-answers-differ", "HostByIP/IPByHost of a process started after the step %s, of the running one %s", pa, pb)
+			}
+		}
+		// The service keeps writing the lease file of the data directory it was
+		// created with, and nothing else (each reported once per history).
+		if st := c10Strays(); len(st) > 0 {
+			fail(i, "stray-lease-file", "files written outside the data directory: %v", st)
+			for _, p := range st {
+				os.RemoveAll(p)
+			}
+		}
+		if got := w.srv.conf.dbFilePath; got != origPath && !pathReported && os.Getenv("VERIF_C10_NOPATHFIELD") == "" {
+			pathReported = true
+			fail(i, "db-path-changed", "the service now stores its leases in %q, it was created with %q", got, origPath)
+		}
+		// What the status request reports: the leases GetLeases reports, each once.
+		sv, sterr := w.status()
+		if sterr != nil {
+			fail(i, "status-fails", "GET /control/dhcp/status: %v", sterr)
+		} else {
+			var api []c10Lease
+			for _, l := range w.s4.GetLeases(LeasesAll) {
+				k := 1
+				if l.IsStatic {
+					k = 0
+				}
+				api = append(api, c10Lease{IP: c10FromAddr(l.IP), Mac: c10FromMAC(l.HWAddr), Host: l.Hostname, Kind: k})
+			}
+			if !c10SameLeases(sv.Leases, api) {
+				fail(i, "status-leases", "status lists %v, GetLeases %v", sv.Leases, api)
+			}
+			if w.configured() && (sv.Start != w.conf.Start || sv.End != w.conf.End) {
+				fail(i, "status-pool", "status reports the pool %s-%s, configured was %s-%s", c10Addr(sv.Start), c10Addr(sv.End),
+					c10Addr(w.conf.Start), c10Addr(w.conf.End))
+			}
+		}
 
 		// ---- classes
 		cl := c10KindNames[o.Kind]
@@ -1330,6 +1613,9 @@ func c10Run(t *testing.T, out *vfOut, h c10History) {
 				cl += "-removed"
 			}
 		case c10StaticAdd, c10StaticUpdate, c10StaticRemove:
+			if !wasConfigured {
+				classes["static-unconfigured"] = true
+			}
 			if r.Code == 2 {
 				cl += "-ok"
 			} else if changed {
@@ -1343,7 +1629,20 @@ func c10Run(t *testing.T, out *vfOut, h c10History) {
 					cl = "tick-expire"
 				}
 			}
+		case c10Reset, c10ResetLeases:
+			if !wasConfigured {
+				cl += "-unconfigured"
+			}
+		case c10Restart:
+			if !w.configured() {
+				classes["restart-unconfigured"] = true
+			} else if !wasConfigured {
+				classes["restart-after-reset"] = true
+			}
 		case c10SetConfig:
+			if !wasConfigured && r.Code == 2 {
+				classes["set-config-unconfigured"] = true
+			}
 			switch {
 			case r.Code != 2:
 				cl += "-rejected"
@@ -1419,7 +1718,12 @@ func c10Run(t *testing.T, out *vfOut, h c10History) {
 				mbi = append(mbi, enc.ip(ip), c10FromMAC(m))
 			}
 		}
-		obsStr := c10Flat(tbl) + " " + hbi + " " + ibh + " " + c10Flat(act) + " " + c10Flat(mbi)
+		stEnabled := "0"
+		if sv.Enabled {
+			stEnabled = "1"
+		}
+		obsStr := c10Flat(tbl) + " " + hbi + " " + ibh + " " + c10Flat(act) + " " + c10Flat(mbi) + " " +
+			c10Flat([]string{stEnabled, enc.ip(sv.Start), enc.ip(sv.End)})
 		var busyEnc []string
 		for _, ip := range busyIPs {
 			busyEnc = append(busyEnc, enc.ip(ip))
@@ -1433,12 +1737,21 @@ func c10Run(t *testing.T, out *vfOut, h c10History) {
 		desc = append(desc, descStep{Op: o, Reply: r.coq(), Table: fmt.Sprint(sorted)})
 	}
 
+	if w.byMethod > 0 {
+		classes["static-by-method"] = true
+	}
+	if w.byHTTP > 0 {
+		classes["static-over-http"] = true
+	}
+	if h.fresh {
+		classes["fresh-install"] = true
+	}
 	ph := make([]string, len(enc.names))
 	for i, n := range enc.names {
 		ph[i] = vfBytes(n)
 	}
 	c := vfCase{
-		Coq:        vfApp("C10.Case", cf0.coq(), vfList("bytes", ph), vfNat(nProbe), vfZ(t0), vfList("stepobs", steps)),
+		Coq:        vfApp("C10.Case", cf0.coq(), vfBool(h.fresh), vfList("bytes", ph), vfNat(nProbe), vfZ(t0), vfList("stepobs", steps)),
 		Nontrivial: nontrivial,
 		MonitorOK:  len(fails) == 0,
 		Desc:       map[string]any{"tag": h.tag, "pool": fmt.Sprintf("%s-%s", c10Addr(cf0.Start), c10Addr(cf0.End)), "steps": desc},
@@ -1607,6 +1920,86 @@ func c10ConfCases(out *vfOut, r *vfRand, n int) {
 	}
 }
 
+// c10BitCases: operation sequences on the real bitSet (bitset.go): writes and
+// reads at indices around word boundaries, far apart, and at the top of the
+// uint64 range; every read is compared (monitor) with a plain set of indices
+// and replayed (Coq) on the word / bit model and on the abstract set.
+func c10BitCases(out *vfOut, r *vfRand, n int) {
+	bases := []uint64{0, 64, 128, 4096, 1<<32 - 64, 1 << 32, 1 << 63, ^uint64(0) - 127}
+	run := func(tag string, isNil bool, ops [][2]uint64, gets []uint64) {
+		var bs *bitSet
+		if !isNil {
+			bs = newBitSet()
+		}
+		ref := map[uint64]bool{}
+		var terms []string
+		ok, msg := true, ""
+		get := func(n uint64) {
+			seen := bs.isSet(n)
+			if seen != (ref[n] && !isNil) && ok {
+				ok, msg = false, fmt.Sprintf("%s: after %d operations isSet(%d) = %v, the bit was last written %v", tag, len(terms), n, seen, ref[n])
+			}
+			terms = append(terms, vfApp("BGet", vfN(n), vfBool(seen)))
+		}
+		for _, o := range ops {
+			bs.set(o[0], o[1] == 1)
+			ref[o[0]] = o[1] == 1
+			terms = append(terms, vfApp("BSet", vfN(o[0]), vfBool(o[1] == 1)))
+			// the bit written, its neighbours, the same position in the next word
+			get(o[0])
+			get(o[0] ^ 1)
+			get(o[0] + 64)
+		}
+		for _, g := range gets {
+			get(g)
+		}
+		var keys []uint64
+		for k := range ref {
+			keys = append(keys, k)
+		}
+		sort.Slice(keys, func(i, j int) bool { return keys[i] < keys[j] })
+		for _, k := range keys {
+			get(k)
+		}
+		cl := "bitset"
+		if isNil {
+			cl = "bitset-nil"
+		}
+		c := vfCase{
+			Coq:        vfApp("C10.BitCase", vfBool(isNil), vfList("bitop", terms)),
+			Nontrivial: true,
+			Classes:    []string{cl},
+			MonitorOK:  ok,
+			Desc:       map[string]any{"tag": tag, "nil": isNil, "ops": ops},
+		}
+		if !ok {
+			c.FindingKey, c.MonitorMsg = "bitset", msg
+		}
+		out.Emit(c)
+	}
+	// The slip of C10-G in one line: clear a bit that is not first in its word
+	// while neighbours are set.
+	run("clear-among-neighbours", false, [][2]uint64{{0, 1}, {1, 1}, {2, 1}, {65, 1}, {1, 0}, {65, 0}, {63, 1}, {64, 1}, {63, 0}}, []uint64{0, 1, 2, 3, 62, 63, 64, 65, 66, 127, 128})
+	run("top-of-range", false, [][2]uint64{{^uint64(0), 1}, {^uint64(0) - 63, 1}, {^uint64(0) - 64, 1}, {1 << 63, 1}, {^uint64(0), 0}}, []uint64{0, 63, 1 << 63, 1<<63 + 1})
+	run("nil-set", true, [][2]uint64{{0, 1}, {64, 1}, {0, 0}}, []uint64{0, 1, 64})
+	for i := 0; i < n; i++ {
+		q := r.Fork(uint64(5000 + i))
+		var ops [][2]uint64
+		base := vfPick(q, bases)
+		for k, m := 0, 10+q.Intn(40); k < m; k++ {
+			if q.Chance(1, 6) {
+				base = vfPick(q, bases)
+			}
+			v := uint64(1)
+			if q.Chance(2, 5) {
+				v = 0
+			}
+			ops = append(ops, [2]uint64{base + uint64(q.Intn(130)), v})
+		}
+		run(fmt.Sprintf("random-bits-%d", i), q.Chance(1, 15), ops, nil)
+	}
+}
+
 func TestVerifC10(t *testing.T) {
 	log.SetOutput(io.Discard)
 	if os.Getenv("VERIF_C10_NETNS") != "" {
@@ -1620,6 +2013,10 @@ func TestVerifC10(t *testing.T) {
 	} else if c10Reexec(t) {
 		return
 	}
+	// Histories run in a scratch working directory: a lease file written to a
+	// relative path lands there (not in the package directory) and is reported.
+	c10Scratch = t.TempDir()
+	t.Chdir(c10Scratch)
 	out := vfOpen(t, "C10")
 	defer out.Close()
 	out.Note("icmp_probe", c10Probe)
@@ -1627,6 +2024,7 @@ func TestVerifC10(t *testing.T) {
 	rnd := vfNewRand(out.Seed)
 
 	c10ConfCases(out, rnd.Fork(4242), out.Scale(100, 3000))
+	c10BitCases(out, rnd.Fork(4343), out.Scale(60, 2000))
 	m := []uint64{1, 2, 3, 4}
 	for _, h := range c10Prelude(m) {
 		c10Run(t, out, h)
@@ -1675,7 +2073,14 @@ func TestVerifC10(t *testing.T) {
 		// The generator is told every reply, so that clients mostly ask for
 		// the address they were offered.
 		h.next = func(j int) (c10Op, bool) { return g.op(), j < steps }
-		h.seen = func(o c10Op, r c10Reply) {
+		// One history in twelve starts as a fresh installation: no DHCPv4
+		// settings, DHCP disabled, until a set_config.
+		if r.Fork(56).Chance(1, 12) {
+			h.fresh, g.unconfigured = true, true
+			h.icmp, h.busy0, g.probe = false, nil, false
+		}
+		h.seen = func(o c10Op, r c10Reply, configured bool) {
+			g.unconfigured = !configured
 			if r.Code == 1 && r.YI != 0 {
 				g.last[o.Mac] = r.YI
 			} else if r.Code == 2 && o.Kind == c10SetConfig {
@@ -1788,6 +2193,23 @@ func c10Prelude(m []uint64) (hs []c10History) {
 		setc(s, cf.End), renew(1, s, "alpha"), setc(s+1, cf.End+2), disc(1), sel(1, s+2, "alpha"), disc(4),
 		setc(cf.GW, cf.GW+2), setc(cf.GW-1, cf.GW), setc(cf.End, s), setc(s, cf.SubHi+1), setc(s+1, cf.End+2), restart,
 		setc(cf.End+3, cf.End+5), st(c10StaticRemove, 2, cf.End+3, "nas"), restart)
+	// The admin operations that replace the DHCPv4 server or its settings.
+	reset, resetLeases, status := c10Op{Kind: c10Reset}, c10Op{Kind: c10ResetLeases}, c10Op{Kind: c10Status}
+	add("reset-reconfigure-restart", st(c10StaticAdd, 1, cf.End+2, "first"), disc(2), sel(2, s, "beta"), status, reset, status,
+		st(c10StaticAdd, 1, cf.End+2, "first"), st(c10StaticUpdate, 1, cf.End+3, "first"), st(c10StaticRemove, 1, cf.End+2, "first"),
+		setc(s, cf.End), status, st(c10StaticAdd, 3, cf.End+3, "second"), disc(2), sel(2, s, "beta"), restart,
+		st(c10StaticAdd, 4, s+1, "third"), restart)
+	add("reset-then-restart", disc(1), sel(1, s, "alpha"), st(c10StaticAdd, 2, cf.End+2, "nas"), reset, restart, status,
+		st(c10StaticAdd, 2, cf.End+2, "nas"), disc(1), sel(1, s, "alpha"), restart, reset, reset, resetLeases, setc(s+1, cf.End+1),
+		disc(3), restart)
+	add("reset-leases", disc(1), sel(1, s, "alpha"), st(c10StaticAdd, 2, cf.End+2, "nas"), st(c10StaticAdd, 3, s+1, "in-pool"),
+		resetLeases, status, restart, disc(4), sel(4, s, "delta"), st(c10StaticAdd, 2, cf.End+2, "nas"), resetLeases, resetLeases, restart)
+	add("reset-other-pool", disc(1), sel(1, s, "alpha"), disc(2), sel(2, s+1, "beta"), reset, setc(s+1, cf.End+2), disc(1),
+		sel(1, s+1, "alpha"), st(c10StaticAdd, 3, s+2, "gamma"), restart, setc(cf.End, s), reset, setc(cf.End, s), restart,
+		setc(s, cf.End), disc(1), restart)
+	hs = append(hs, c10History{conf: cf, tag: "fresh-install", fresh: true, ops: []c10Op{
+		status, st(c10StaticAdd, 1, cf.End+2, "early"), restart, resetLeases, setc(cf.GW, cf.GW+2), setc(s, cf.End), status,
+		disc(1), sel(1, s, "alpha"), st(c10StaticAdd, 2, cf.End+2, "nas"), restart, reset, restart, disc(3), restart}})
 	lcf := c10LoopConf(3)
 	ls := lcf.Start
 	lsel := func(mac uint64, ip uint32, host string) c10Op {
